@@ -59,10 +59,10 @@ Proof.
   apply negb_true_iff in H1, H2, H3. rewrite H1, H2, H3. reflexivity.
 Qed.
 (* a multi-base replacement that is not a catalogued multi-substitution *)
-Lemma uncatalogued_mnp_no_uses g pos ref alt : length ref = length alt -> (2 <= length alt)%nat ->
+Lemma uncatalogued_mnp_no_uses g pos ref alt : length ref = length alt -> (2 <= length alt)%nat -> padded_sub ref alt = false ->
   mnp_catalogued g (subs_of g pos alt) = false -> alt_uses g pos ref alt = [].
 Proof.
-  unfold alt_uses. intros H1 H2 H3. rewrite H1, Nat.eqb_refl, H3.
+  unfold alt_uses. intros H1 H2 HP H3. rewrite H1, Nat.eqb_refl, H3, HP.
   replace (length alt <=? 1)%nat with false by (symmetry; apply Nat.leb_gt; lia). reflexivity.
 Qed.
 
@@ -397,8 +397,8 @@ Definition shipped_cov (skipnone : bool) (g : gview) (c : consts) (rs : list vre
 Theorem ignored_kinds g r :
   (diploid r = None -> record_uses g r = []) /\ (base g (v_pos r - 1) = 78 -> record_uses g r = []) /\
   (forall pos ref alt, other_shape ref alt = true -> alt_uses g pos ref alt = []) /\
-  (forall pos ref alt, length ref = length alt -> (2 <= length alt)%nat -> mnp_catalogued g (subs_of g pos alt) = false ->
-     alt_uses g pos ref alt = []).
+  (forall pos ref alt, length ref = length alt -> (2 <= length alt)%nat -> padded_sub ref alt = false ->
+     mnp_catalogued g (subs_of g pos alt) = false -> alt_uses g pos ref alt = []).
 Proof.
   split; [intros H; apply unusable_no_uses, not_diploid_unusable, H|].
   split; [intros H; apply unusable_no_uses, n_position_unusable, H|].
